@@ -20,7 +20,7 @@ BOUNDS = {
               "encode(decode(s))": "every string over the alphabet of length 1..10",
               "rejection": "every string of length 1..5 of arbitrary Unicode code points",
               "checksum soundness": "every string over the alphabet of length 0..8; checksum round trip for every payload of 0..3 bytes; corrupted checksum for payloads of 0..2 bytes",
-              "any length": "encode_base58 on every byte string of 12..40, 48, 64 and 82 bytes with a non-zero first byte (thorough: every length 12..128); decode_base58 on every alphabet string of 13, 17 and 21 characters not starting with '1' (thorough: 13..40)",
+              "any length": "encode_base58 on every byte string of 12, 16, 20, 24, 28 and 32 bytes with a non-zero first byte (thorough: every length 12..128); decode_base58 on every alphabet string of 13, 17 and 21 characters not starting with '1' (thorough: 13..40)",
               "real-size decoder": "decode_base58 on every string of 34/35/51/52 characters (first character from the set such strings start with, the rest symbolic); thorough adds 111 characters",
               "real sizes": "encode_base58_checksum on every 21-byte address payload (version 05/6f/c4), 33/34-byte WIF payload (80/ef), content symbolic; thorough adds version 00 and the 78-byte extended-key payloads (12 versions)"},
     "thorough": {"decode(encode(b))": "length 1..11", "encode(decode(s))": "length 1..12", "rejection": "length 1..6",
@@ -314,7 +314,7 @@ def cases(tier):
                        need=("real-size decode: positional base-58 value",)))
     for m in ((13, 17, 21) if q else range(13, 41)):
         cs.append(Case("decode_any[%d]" % m, "decode_any", dict(m=m), weight=m // 4, need=("decode (any length): positional base-58 value",)))
-    for n in (list(range(12, 41)) + [48, 64, 82] if q else range(12, 129)):
+    for n in ((12, 16, 20, 24, 28, 32) if q else range(12, 129)):
         cs.append(Case("encode_any[%d]" % n, "encode_any", dict(n=n), weight=n * 2, need=("encode (any length): positional base-58 value",)))
     for n in range(0, (1 if q else 2) + 1):
         for first in ("encode", "decode"):
